@@ -353,6 +353,25 @@ def bulk_statement(rng):
     return 'select ' + cols + ' from t;' + ' select 2;'
 
 
+MANY_UNITS = ['select 1', 'select a, b from t where c = 1',
+              "insert into t values (1, 'x;y')", 'commit', 'begin',
+              'update t set a = 1 where b = 2 /* c; */',
+              'delete from t where a in (1, 2)', 'select $$a;b$$',
+              'drop table if exists t', 'create table t (a int, b text)',
+              'select case when a then 1 end from t', 'select "a;b" from t',
+              'end', 'rollback', 'select 1 -- c;\n']
+
+
+def many_statements(rng):
+    """300 - 3000 short statements in one script: counters, caches and
+    buffers that are per statement only show on scripts of this length."""
+    n = rng.choice([300, 1100, 3000])
+    sep = rng.choice([';\n', '; ', ';', ';\r\n', ' ;\n\n'])
+    units = [rng.choice(MANY_UNITS) for _ in range(rng.choice([1, 3, 7]))]
+    return sep.join(units[i % len(units)] for i in range(n)) + \
+        rng.choice([';', '', ';\n'])
+
+
 EDGE_CHARS = ['\ufeff', '\ufeff', '\x00', '\xa0', '\u200b', '\r', '\x1c',
               '\ufffe', '\u2028', '\x85', '\x0c', '\ufeff\ufeff', ';', '#']
 
